@@ -217,32 +217,38 @@ func (p *Packet) NewData(data interface{}, dims []int16) error {
 	pfmt.dtype = make([]reflect.Kind, 1)
 	pfmt.endian = binary.LittleEndian
 	pfmt.nvals = 1
+	var nbytes int
 	switch d := data.(type) {
 	case []int16:
 		pfmt.rawfmt = "<h"
 		pfmt.dtype[0] = reflect.Int16
 		pfmt.wordlen = 2
-		p.payloadLength = uint16(pfmt.wordlen * len(d))
+		nbytes = pfmt.wordlen * len(d)
 		p.Data = d
 	case []int32:
 		pfmt.rawfmt = "<i"
 		pfmt.dtype[0] = reflect.Int32
 		pfmt.wordlen = 4
-		p.payloadLength = uint16(pfmt.wordlen * len(d))
+		nbytes = pfmt.wordlen * len(d)
 		p.Data = d
 	case []int64:
 		pfmt.rawfmt = "<q"
 		pfmt.dtype[0] = reflect.Int64
 		pfmt.wordlen = 8
-		p.payloadLength = uint16(pfmt.wordlen * len(d))
+		nbytes = pfmt.wordlen * len(d)
 		p.Data = d
 	default:
 		return fmt.Errorf("could not handle Packet.NewData of type %v", reflect.TypeOf(d))
 	}
+	if nbytes > maxPACKETLENGTH {
+		// check before narrowing to the 16-bit header field, which would wrap silently
+		return fmt.Errorf("payload length %d exceeds max of %d", nbytes, maxPACKETLENGTH)
+	}
+	p.payloadLength = uint16(nbytes)
 	p.format = pfmt
 	p.headerLength += 8
 	p.shape = new(headPayloadShape)
-	p.shape.Sizes = make([]int16, 1)
+	p.shape.Sizes = make([]int16, max(1, ndim))
 	for i := 0; i < ndim; i++ {
 		p.shape.Sizes[i] = dims[i]
 	}
